@@ -10,7 +10,7 @@ import (
 	"verifharness/internal/val"
 )
 
-var c06Floor = []string{"distinct", "distinct.star", "distinct.multi", "distinct.dups", "distinct.lookalike", "distinct.grouped", "distinct.derived", "distinct.cte", "union.all", "union.distinct", "union.mixed", "chain.2", "chain.3", "chain.4", "union.limit", "union.limit.offset", "union.dups", "table.large", "reexec", "union.async", "union.limit.all-from", "distinct.window", "where", "badutf8", "union.cte", "union.cte.chain3", "branch.window", "distinct.fused"}
+var c06Floor = []string{"distinct", "distinct.star", "distinct.multi", "distinct.dups", "distinct.lookalike", "distinct.grouped", "distinct.derived", "distinct.cte", "union.all", "union.distinct", "union.mixed", "chain.2", "chain.3", "chain.4", "union.limit", "union.limit.offset", "union.dups", "table.large", "reexec", "union.async", "union.limit.all-from", "distinct.window", "where", "badutf8", "union.cte", "union.cte.chain3", "branch.window", "distinct.fused", "distinct.ordered", "union.ordered", "close-doubles"}
 
 func init() {
 	fw.Register(&fw.Prop{
@@ -46,6 +46,10 @@ func c06Table(c *fw.Case, name string) *gen.Table {
 	if c.Chance(0.15) {
 		pool = append(pool[:1], c06BadUTF8[:2+c.Intn(len(c06BadUTF8)-1)]...)
 		c.Feature("badutf8")
+	} else if c.Chance(0.12) {
+		// doubles that differ in their last digits only (long ids decoded from JSON, 0.1 + 0.2 next to 0.3)
+		pool = append(pool[:1], []any{0.1 + 0.2, 0.3, 1e18, 1e18 + 256, 1234567890123456768.0, 1234567890123457024.0, 0.7, 0.7000000000000001}[:2+c.Intn(7)]...)
+		c.Feature("close-doubles")
 	}
 	n := c.Intn(pick(c.Tier, 11, 30))
 	if name == "t1" && (c.Idx%40 == 13 || c.Chance(0.004)) {
@@ -212,6 +216,22 @@ func c06Run(c *fw.Case) {
 		if len(want) < len(p.Rows) && len(want) >= 2 {
 			c.Nontrivial(dsql + "|" + val.Canon(t1.Array()))
 		}
+		// sorted by one of its columns the distinct result is still the same set of rows
+		if dLim < 0 && shape != "fused" && shape != "cte" && shape != "derived" && shape != "grouped" && (force == "distinct.ordered" || c.Chance(0.25)) {
+			key := gen.Pick(c.R, []string{"a", "b", "c"})
+			if sel != "*" {
+				key = gen.Pick(c.R, cols)
+			}
+			osql := dsql + " ORDER BY " + key + gen.Pick(c.R, []string{"", " DESC"})
+			o := Run(doc(), osql)
+			c.Evals(1)
+			c.Feature("distinct.ordered")
+			if !o.OK() || !val.SameMultiset(o.Rows, want) {
+				c.Violate("wrong-distinct", fmt.Sprintf("DISTINCT ... ORDER BY %s returned %d rows, the distinct rows are %d: got %s want (any order) %s", key, len(o.Rows), len(want), short(val.Canon(o.Rows), 300), short(val.Canon(want), 300)),
+					map[string]any{"sql": osql, "doc": doc(), "observed": o.Describe(), "expected_any_order": val.Show(want)})
+				return
+			}
+		}
 		c06Again(c, doc(), dsql, want)
 		return
 	}
@@ -377,6 +397,18 @@ func c06Run(c *fw.Case) {
 		c.Violate("wrong-union", fmt.Sprintf("union chain returned %d rows, the fold of its branches has %d: got %s want %s", len(u.Rows), len(want), short(val.Canon(u.Rows), 300), short(val.Canon(want), 300)),
 			map[string]any{"sql": sql, "doc": doc(), "observed": val.Show(u.Rows), "expected": val.Show(want)})
 		return
+	}
+	// sorted by one column the union is the same multiset of rows
+	if lim < 0 && !overCTE && (force == "union.ordered" || c.Chance(0.25)) {
+		osql := sql + " ORDER BY " + gen.Pick(c.R, cols) + gen.Pick(c.R, []string{"", " DESC"})
+		o := Run(doc(), osql)
+		c.Evals(1)
+		c.Feature("union.ordered")
+		if !o.OK() || !val.SameMultiset(o.Rows, want) {
+			c.Violate("wrong-union", fmt.Sprintf("union chain ... ORDER BY returned %d rows, the fold of its branches has %d: got %s want (any order) %s", len(o.Rows), len(want), short(val.Canon(o.Rows), 300), short(val.Canon(want), 300)),
+				map[string]any{"sql": osql, "doc": doc(), "observed": o.Describe(), "expected_any_order": val.Show(want)})
+			return
+		}
 	}
 	if len(acc) >= 3 {
 		c.Nontrivial(sql + "|" + val.Canon(t1.Array()) + val.Canon(t2.Array()))
